@@ -97,7 +97,9 @@ var gapFillers = []struct{ name, text string }{
 	// line comments whose text is empty or made of the characters the comment states look at (dash, paren, quote, CR)
 	{"linecomment-empty", "--\n"}, {"linecomment-empty-blank", " --\n"}, {"linecomment-dash", "---\n"}, {"linecomment-dashes", "-----\n"},
 	{"linecomment-blank", "-- \n"}, {"linecomment-crlf", "--\r\n"}, {"linecomment-late-paren", "--c(\n"}, {"linecomment-closer", "--)--\n"},
-	{"linecomment-quote", "--'\n"}, {"linecomment-dquote", "--\"\n"}, {"two-empty-linecomments", "--\n--\n"},
+	{"linecomment-quote", "--'\n"},
+	// a bare carriage return INSIDE the comment text (the comment ends at the line feed, nowhere else)
+	{"linecomment-bare-cr", " -- a\rb c\n"}, {"linecomment-bare-cr-quote", "-- x\r'q' or\n"}, {"linecomment-cr-cr-lf", "--\r\r\n"}, {"linecomment-dquote", "--\"\n"}, {"two-empty-linecomments", "--\n--\n"},
 	{"empty-linecomment-then-block", "--\n--(c)--"}, {"block-then-empty-linecomment", "--(c)----\n"},
 	{"blockcomment", "--(c)--"}, {"blockcomment-blanks", " --(c)-- "},
 	// comment texts made of the terminator's own characters: every proper prefix of `)--` directly before the real one
